@@ -143,9 +143,10 @@ func (w *World) checkRetained() {
 			d := mr.tags[t]
 			if !w.pullable(repo, mr, d, map[string]bool{}) {
 				note := ""
-				for _, root := range sortedKeys(mr.orphans) {
+				roots := mr.familyRoots()
+				for _, root := range sortedKeys(roots) {
 					if mr.reaches(d, root) {
-						note = " [names a " + mr.orphans[root] + "]"
+						note = " [names a " + roots[root] + "]"
 					}
 				}
 				w.x.viol([]string{"C05"}, "gc.image-not-pullable", "tagged image"+note, fmt.Sprintf("after a collection, the image tagged %s (%s) in %s is no longer completely pullable%s", t, d, repo, note))
@@ -180,6 +181,8 @@ func (w *World) checkRetained() {
 							note = " [" + why + "]"
 						} else if why := mr.causeOf(s); why != "" {
 							note = " [subject: " + why + "]"
+						} else if mr.respLost[s] {
+							note = " [referrers response collected by policy while artifacts remain]"
 						}
 						w.x.viol([]string{"C05"}, "gc.referrers-lost", "retained subject"+note, fmt.Sprintf("after a collection, referrers of retained subject %s in %s no longer list %s%s", s, repo, a, note))
 						if note != "" {
